@@ -360,7 +360,7 @@ def zip_cases(out, cs, seed, tier):
 
 def run(out, tier, seed, model_ok):
     rng = random.Random(seed * 7919 + 13)
-    n = common.deepen(500 if tier == "quick" else 6000)
+    n = common.deepen(400 if tier == "quick" else 6000)
     cs = A.gen_cases(seed, n, PROFILE, sm=dict(hid=0), tag="c13-")
     run_ = A.ApiRun(out, "C13", model_ok, lambda r, c: {"value": r["value"], "messages": r.get("messages"), "raw": r.get("raw")}, name="canonical")
     run_.run(cs, nontrivial=lambda c, r: True)
